@@ -34,6 +34,8 @@ type Spec struct {
 	OptEnc      int
 	OptSelf     bool
 	OptRejMal   bool
+	// OptHashUnset: the shared options leave Hash at its zero value
+	OptHashUnset bool
 }
 
 // Fixture is the set of shared objects of one run.
@@ -59,6 +61,11 @@ type Fixture struct {
 	pubEncs  [][]byte // compressed, uncompressed, ASN.1 of each public key
 	privEncs [][]byte
 	badBytes [][]byte
+	// slices of operands that several callers pass, as they are, to the
+	// multi-scalar multiplications (the slices themselves are shared
+	// read-only operands too)
+	msmScalars []*secp256k1.Scalar
+	msmPoints  []*secp256k1.Point
 	modelQ   []ref.Pt
 	modelD   []*big.Int
 }
@@ -138,6 +145,7 @@ func DrawSpec(t *kernel.Tape, cold bool) *Spec {
 	s.OptEnc = t.Choose("fixture", "opt.enc", 3)
 	s.OptSelf = t.Bool("fixture", "opt.self")
 	s.OptRejMal = t.Bool("fixture", "opt.rejmal")
+	s.OptHashUnset = t.Bool("fixture", "opt.hashunset")
 	return s
 }
 
@@ -155,6 +163,9 @@ func mustScalarBytes(b []byte) *secp256k1.Scalar {
 func Build(s *Spec) (*Fixture, error) {
 	fx := &Fixture{spec: s, digests: s.Digests, msgs: s.Msgs, dsts: s.DSTs}
 	fx.opts = &secec.ECDSAOptions{Hash: crypto.SHA256, Encoding: secec.SignatureEncoding(s.OptEnc), SelfVerify: s.OptSelf, RejectMalleable: s.OptRejMal}
+	if s.OptHashUnset {
+		fx.opts.Hash = 0 // documented default: SHA-256
+	}
 	for _, b := range s.ScalarBytes {
 		fx.scalars = append(fx.scalars, mustScalarBytes(b))
 	}
@@ -164,7 +175,8 @@ func Build(s *Spec) (*Fixture, error) {
 		fx.modelD = append(fx.modelD, d)
 		q := ref.BaseMul(d)
 		fx.modelQ = append(fx.modelQ, q)
-		fx.pubEncs = append(fx.pubEncs, q.Compressed(), q.Uncompressed())
+		// both points with this x coordinate: Q and -Q
+		fx.pubEncs = append(fx.pubEncs, q.Compressed(), q.Uncompressed(), q.Neg().Compressed())
 	}
 	fx.badBytes = [][]byte{{}, {0x04, 0x01}, bytes.Repeat([]byte{0xff}, 33), bytes.Repeat([]byte{0x30}, 70)}
 	if s.Cold {
@@ -246,6 +258,13 @@ func Build(s *Spec) (*Fixture, error) {
 		}
 		fx.points = append(fx.points, p)
 	}
+	// a shared batch with a zero scalar and the point at infinity in it
+	for i := 0; i < 6; i++ {
+		fx.msmScalars = append(fx.msmScalars, pick(fx.scalars, i))
+		fx.msmPoints = append(fx.msmPoints, pick(fx.points, i))
+	}
+	fx.msmScalars = append(fx.msmScalars, secp256k1.NewScalar(), secp256k1.NewScalarFromUint64(3))
+	fx.msmPoints = append(fx.msmPoints, secp256k1.NewGeneratorPoint(), secp256k1.NewIdentityPoint())
 	return fx, nil
 }
 
@@ -271,6 +290,9 @@ func (fx *Fixture) Observe() string {
 		fmt.Fprintf(&sb, "sc%d=%x;", i, s.Bytes())
 	}
 	fmt.Fprintf(&sb, "opts=%d/%d/%v/%v;", fx.opts.Hash, fx.opts.Encoding, fx.opts.SelfVerify, fx.opts.RejectMalleable)
+	for i := range fx.msmScalars {
+		fmt.Fprintf(&sb, "msm%d=%x*%x;", i, fx.msmScalars[i].Bytes(), fx.msmPoints[i].CompressedBytes())
+	}
 	for _, group := range [][][]byte{fx.digests, fx.msgs, fx.dsts, fx.sigASN1, fx.sigCompact, fx.sigRec, fx.sigBIP66, fx.schSigs, fx.pubEncs, fx.privEncs, fx.badBytes} {
 		for _, b := range group {
 			fmt.Fprintf(&sb, "%x,", b)
